@@ -658,6 +658,8 @@ def replay_cases():
         return None
     j = json.load(open(sys.argv[sys.argv.index("--replay") + 1]))
     rp = j.get("replay", {})
+    if "case_for_replay" in rp:
+        return [rp["case_for_replay"]]
     if "case" in rp:
         return [rp["case"]]
     return None
@@ -689,6 +691,11 @@ def correspondence(c, crate, cases, line_of, coq_case_of, preamble, checker, mon
     Returns the list of implementation outputs (token lists) or None."""
     prop = c.prop
     corr_name = corr_name or ("correspondence %s model <-> %s harness" % (prop, crate))
+    rc_cases = replay_cases()
+    if rc_cases is not None:
+        # ./check Cxx --replay <file>: re-run exactly the stored case (same harness line, same monitor)
+        cases = rc_cases
+        c.notes.append("replay of a stored case")
     exe, log, mode = build_harness(crate, prop)
     if exe is None:
         c.not_shown_because("%s: the harness no longer builds against the current tree: %s" % (corr_name, log[-1500:]))
@@ -720,6 +727,7 @@ def correspondence(c, crate, cases, line_of, coq_case_of, preamble, checker, mon
             payload.update({"harness_input": lines[i], "implementation_output": " ".join(o), "crate": crate})
             try:
                 json.dumps(case)
+                payload["case_for_replay"] = case
                 payload.setdefault("case", case)
             except (TypeError, ValueError):
                 pass
